@@ -1454,6 +1454,11 @@ class ModelBuilder:
                     leave_type = value.get("type", "annual")
                     start_date = value.get("start")
                     end_date = value.get("end", start_date)
+                    if start_date and (end_date is None or end_date == start_date):
+                        # A leave given as a single date covers that day
+                        from datetime import timedelta
+
+                        end_date = start_date + timedelta(days=1)
 
                     if start_date and end_date:
                         interval = TimeInterval(start_date, end_date)
@@ -1525,6 +1530,11 @@ class ModelBuilder:
 
                     start_date = value.get("start")
                     end_date = value.get("end", start_date)
+                    if start_date and (end_date is None or end_date == start_date):
+                        # A vacation given as a single date covers that day
+                        from datetime import timedelta
+
+                        end_date = start_date + timedelta(days=1)
 
                     if start_date and end_date:
                         interval = TimeInterval(start_date, end_date)
